@@ -179,6 +179,7 @@ def _step(c, op, k):
 
 
 def _history(opener, ops, pre=0):
+    scratchdir.count_cell(f'history pre={pre} opener={opener} ops={list(ops)}')
     c = Ctx(opener, pre)
     try:
         for k, op in enumerate(ops):
